@@ -443,6 +443,7 @@ def mgDoc (n : Validate.Value) : Validate.Doc :=
                [.field none "a" [⟨"n", .null⟩] [] false 0 [], .spread "F" [],
                 .inline (some "Query") [] 2 [.field (some "k") "o" [] [] true 3 [.field none "x" [] [] false 0 [], .field none "__typename" [] [] false 0 []]]],
              .frag "F" "Query" [] 4 [.field (some "b") "a" [⟨"n", .var "v"⟩] [] false 0 [], .field none "a" [⟨"n", n⟩] [] false 0 []]] }
+example : Overlap brSchemaQ "Query" "Query" := ⟨"Query", Or.inl rfl, Or.inl rfl⟩
 example : Spec.fieldOwnersB brSchemaQ = true := by decide
 example : C06.DocChecksMemo brSchemaQ (mgDoc .null) := ⟨by decide, by decide⟩
 example : ∀ r ∈ Validate.Rule.all, C06.SilentM brSchemaQ Validate.Fixes.all r (mgDoc .null) := by
